@@ -363,6 +363,7 @@ func cmdCheck(args []string) {
 		j.Pkg = pkgImport(j.Pkg)
 		j.Cfg.NoMerge = *nomerge
 		j.Cfg.KnownOpen = knownOpen
+		j.Cfg.AssertPrefix = spec.AssertPrefix
 		if j.Cfg.SampleEvery == 0 {
 			j.Cfg.SampleEvery = 1 + (seed % 3)
 			j.Cfg.MaxSamples = 2
